@@ -185,3 +185,30 @@ fn eih<const N: usize>(spec: &Value) -> Result<Option<String>, String> {
     }
     Ok(None)
 }
+
+/// entry `ss_encode_capacity`: the real encoder writing into a buffer that has 1..=17 bytes of spare capacity after the salt
+/// (what a long-lived Framed write buffer eventually looks like); a panic propagates to main and is the reproduction
+pub fn ss_encode_capacity(spec: &Value) -> Result<Option<String>, String> {
+    if spec["N"].as_u64() == Some(16) { encode_capacity::<16>(spec) } else { encode_capacity::<32>(spec) }
+}
+
+fn encode_capacity<const N: usize>(spec: &Value) -> Result<Option<String>, String> {
+    let kind = kind_of(spec["kind"].as_str().unwrap_or(""))?;
+    let client = spec["mode"].as_str() != Some("Server");
+    for spare in 1..=17usize {
+        for prefill in [0usize, 5, 100] {
+            let context = sstcp::Context::<N>::new([7u8; N], vec![], kind, None);
+            let addr = Address::Socket("1.2.3.4:80".parse().unwrap());
+            let session = sstcp::Session::<N>::new(if client { Mode::Client } else { Mode::Server }, sstcp::Identity::default(), if client { Some(addr) } else { None });
+            let mut codec = sstcp::AEADCipherCodec::<N>::default();
+            let mut wire = BytesMut::with_capacity(prefill + N + spare);
+            wire.extend_from_slice(&vec![0u8; prefill]);
+            codec.encode(&context, &session, BytesMut::from(&b"hello"[..]), &mut wire).map_err(|e| e.to_string())?;
+            // a second write into whatever capacity is left
+            let cap = wire.capacity();
+            let _ = cap;
+            codec.encode(&context, &session, BytesMut::from(&b"world"[..]), &mut wire).map_err(|e| e.to_string())?;
+        }
+    }
+    Ok(None)
+}
